@@ -381,9 +381,9 @@ theorem private_marked_nameIndex {s : Sys} {e : Emit} (h : e ∈ emits s) (hr : 
     · rw [← hm, ← ht]; exact key r hr' (hrow ▸ hr)
   rw [hm, ctxPrivate_of_private s _ (by simp [isPrivate, hp])]
 
-/-- classIndex.html: the marker of an entry is `isClassNodePrivate` of the class -/
+/-- classIndex.html: the marker of an entry is on the node (`isClassNodePrivate`) or, since 2972983, on the row -/
 theorem classIndex_marker {s : Sys} {e : Emit} (h : e ∈ emits s) (hr : e.row = .classIndex) :
-    e.marked = some (classNodePrivate s s.n e.target) := by
+    e.marked = some (classRowPrivate s e.target) := by
   rcases mem_emits h with ⟨hr', _⟩ | ⟨_, _, r, hr', _, hrow, ht, hm⟩
   · have ho := origin hr'
     simp only [Origin, hr] at ho
@@ -391,6 +391,12 @@ theorem classIndex_marker {s : Sys} {e : Emit} (h : e ∈ emits s) (hr : e.row =
   · have ho := origin hr'
     simp only [Origin, hrow ▸ hr] at ho
     rw [← hm, ← ht]; exact ho.2.2
+
+/-- the entry of a class in a private context is marked, one way or the other -/
+theorem classRowPrivate_of_ctxPrivate (s : Sys) (c : Nat) (h : ctxPrivate s c = true) : classRowPrivate s c = true := by
+  unfold classRowPrivate
+  rw [h]
+  cases classNodePrivate s s.n c <;> rfl
 
 /-- `summary.isClassNodePrivate`: a class-index node is marked only for a class in a private context all of
 whose subclasses (visible or not) are marked as well -/
@@ -405,21 +411,12 @@ theorem classNodePrivate_sound (s : Sys) : ∀ f c, classNodePrivate s f c = tru
     simp only [Bool.and_eq_true, List.all_eq_true] at h
     exact ⟨h.1, fun sc hsc => ⟨f, h.2 sc hsc⟩⟩
 
-/-- classIndex.html, the part of "every listing entry of a PRIVATE object is marked" that holds: a private class
-without subclasses is marked (its `<li>` holds nothing else) -/
-theorem private_marked_classIndex_partial {s : Sys} {e : Emit} (h : e ∈ emits s) (hr : e.row = .classIndex)
-    (hp : (s.ob e.target).privacy = .priv) (hleaf : (s.ob e.target).subclasses = []) : e.marked = some true := by
-  rw [classIndex_marker h hr]
-  have hn : 0 < s.n := by
-    rcases mem_emits h with ⟨hr', hv⟩ | ⟨_, _, r, hr', _, hrow, ht, _⟩
-    · exact Nat.lt_of_le_of_lt (Nat.zero_le _) (visible_lt hv)
-    · have ho := origin hr'
-      simp only [Origin, hrow ▸ hr] at ho
-      exact Nat.lt_of_le_of_lt (Nat.zero_le _) (visible_lt ho.2.1)
-  have hc : ctxPrivate s e.target = true := ctxPrivate_of_private s e.target (by simp [isPrivate, hp])
-  obtain ⟨k, hk⟩ : ∃ k, s.n = k + 1 := ⟨s.n - 1, by omega⟩
-  rw [hk]
-  simp [classNodePrivate, hleaf, hc]
+/-- **classIndex.html, full strength since 2972983**: the entry of a PRIVATE class carries the marker, whatever its
+subclasses are (before: only when all of them were private, see `private_marked_classIndex_counterexample_old`) -/
+theorem private_marked_classIndex {s : Sys} {e : Emit} (h : e ∈ emits s) (hr : e.row = .classIndex)
+    (hp : (s.ob e.target).privacy = .priv) : e.marked = some true := by
+  rw [classIndex_marker h hr,
+    classRowPrivate_of_ctxPrivate s _ (ctxPrivate_of_private s e.target (by simp [isPrivate, hp]))]
 
 /-- `m.py`: `class _B` (PRIVATE by its name) and `class S(_B)` (public) -/
 def sPrivateBase : Sys :=
@@ -429,13 +426,15 @@ def sPrivateBase : Sys :=
                   bases := [some 1], baseNames := [['m', '.', '_', 'B']], mro := [2, 1], sigrefs := [some 1] } ],
     all := [0, 1, 2], roots := [0], depth := 1, nosidebar := false }
 
-/-- the full statement is false for classIndex.html: `summary.isClassNodePrivate` marks the `<li>` of a class only
-when all its subclasses are private too (the `<li>` also holds their entries); the PRIVATE `m._B` with the public
-subclass `m.S` is listed without the marker, so the toggle does not hide it. Elsewhere (name index) it is marked. -/
-theorem private_marked_classIndex_counterexample :
+/-- before 2972983 the statement was false for classIndex.html: `summary.isClassNodePrivate` marks the `<li>` of a class
+only when all its subclasses are private too (the `<li>` also holds their entries); the PRIVATE `m._B` with the public
+subclass `m.S` was listed without any marker. Now its row carries it. -/
+theorem private_marked_classIndex_counterexample_old :
     wf sPrivateBase = true ∧ (sPrivateBase.ob 1).privacy = .priv ∧
-    ((emits sPrivateBase).any fun e => e.row == .classIndex && e.target == 1 && e.marked == some false) = true ∧
-    ((emits sPrivateBase).all fun e => !(e.row == .nameIndex && e.target == 1) || e.marked == some true) = true := by
+    classNodePrivate sPrivateBase sPrivateBase.n 1 = false ∧
+    -- fixed code
+    ((emits sPrivateBase).any fun e => e.row == .classIndex && e.target == 1 && e.marked == some true) = true ∧
+    ((emits sPrivateBase).all fun e => !(e.row == .classIndex && e.target == 2) || e.marked == some false) = true := by
   decide
 
 /-! ### what is still false of the current code: the unlinked base nodes of classIndex.html -/
